@@ -6,7 +6,7 @@ schedules of the same action(s) (refinement), and must satisfy the property orac
 import re
 from vlib import core
 
-VARIANTS = [("int", "app"), ("ptr", "app"), ("ptr", "cell"), ("struct", "app"), ("struct", "cell"), ("structval", "app"), ("structauto", "app"), ("arr", "app"),
+VARIANTS = [("int", "app"), ("ptr", "app"), ("ptr", "cell"), ("struct", "app"), ("struct", "cell"), ("structval", "app"), ("structauto", "app"), ("arr", "app"), ("arrref", "app"),
             ("range", "app"), ("range", "cell"), ("stru", "app"), ("stru", "cell"), ("strs", "app"), ("strs", "cell"),
             ("addr", "app"), ("addr", "cell"), ("buf", "app"), ("buf", "cell"), ("copymem", "app")]
 ACTIONS = ["none", "flip", "lengthen", "shorten", "unterminate", "nullcell", "retarget"]
@@ -166,7 +166,7 @@ def run(chk):
                                      "single_point_schedules": sum(1 for o in ops if len(o.split()) == 5), "two_point_schedules": sum(1 for o in ops if len(o.split()) == 7),
                                      "distinct_outcomes_per_case": {"/".join(k): len(v) for k, v in list(outcomes.items())[:400]},
                                      "model_outcome_set_sizes": {"/".join(k): len(v) for k, v in list(msets.items())[:400]}}
-    chk.cov["rule"] = ("11 copy_and_verify variants (fundamental, pointer, struct pointer, struct value, array, range, string/unique_ptr, string/std::string, address, buffer address, copy_memory_or_deny_access) x "
+    chk.cov["rule"] = ("12 copy_and_verify variants (fundamental, pointer, struct pointer, struct value, array by value and by const reference, range, string/unique_ptr, string/std::string, address, buffer address, copy_memory_or_deny_access) x "
                        "pointer held in application memory / in a sandbox cell x 7 adversary actions (flip every datum, lengthen/shorten/unterminate the string, null or retarget the pointer cell) injected after EVERY "
                        "machine read of sandbox memory (thorough: every ordered pair of points for every pair of actions); observed: what the verifier got, where it lives, whether it changes when the region is overwritten, "
                        "exact buffer size and terminator position (buffers come from a guarded arena)")
